@@ -860,3 +860,13 @@ Proof.
   destruct (lookup s (normalize_path p)) as [f|] eqn:Hl; [|reflexivity].
   destruct H as [H|H]; [discriminate|]. rewrite H, beqb_refl. reflexivity.
 Qed.
+
+Lemma attr_lookup s o k : attr_op o = true -> lookup (fst (m_step s o)) k = lookup s k.
+Proof.
+  intros Ha. rewrite m_step_bump. cbn [fst]. change (lookup (bump ?x) k) with (lookup x k).
+  destruct o; try discriminate Ha; cbn [m_step_raw].
+  - unfold m_chmod, set_file_mode. rewrite PathProof.normalize_idempotent.
+    destruct (lookup s (normalize_path p)); [apply MemFsWF.lookup_upd | reflexivity].
+  - unfold m_chown. destruct (lookup s (normalize_path p)); [apply MemFsWF.lookup_upd | reflexivity].
+  - unfold m_chtimes. destruct (lookup s (normalize_path p)); [apply MemFsWF.lookup_upd | reflexivity].
+Qed.
